@@ -75,8 +75,12 @@ def split_header(data):
                 _, pos = rd_long(data, pos)
             for _ in range(c):
                 l, pos = rd_long(data, pos)
+                if l < 0 or pos + l > len(data):
+                    raise Malformed("header key length")          # garbage (a negative length would walk backwards for ever)
                 k = data[pos:pos + l]; pos += l
                 l, pos = rd_long(data, pos)
+                if l < 0 or pos + l > len(data):
+                    raise Malformed("header value length")
                 v = data[pos:pos + l]; pos += l
                 meta[bytes(k)] = bytes(v)
     except EOFError:
